@@ -451,6 +451,18 @@ def gen_c04(ctx):
             c = {'cmd': 'gssv' if k % 2 else 'gstrf', 'fam': fam, 'n': 12 if fam == 'band' else 40, 'bl': 1, 'bu': 1, 'shape': 2, 'kary': 3, 'seed': 5 + k, 'vals': 'generic', 'dom': 'row',
                  'np': np_, 'ord': 0, 'w': 2, 'relax': 2, 'maxsup': 8, 'rowblk': 200, 'colblk': 100, 'nrhs': 1, 'stype': 'nc'}
             items.append(({'variant': 'asan' if fam == 'tree' else 'plain', 'prec': 'd', 'per_process': True, 'timeout_scale': 3.0}, c))
+    # caller-supplied workspace that holds L and U but not every worker's work arrays (sized by the one-thread query, swept
+    # downwards): some workers give up at start-up while others carry on; the call has to return all the same (info > n or
+    # success), every thread gone
+    NW = 240 if ctx.quick else 3000
+    for i in range(NW):
+        c = hist_base(rng, ctx.quick, nmax=44)
+        c['n'] = max(c['n'], 12); c['mem'] = 1; c['lwfrac'] = rng.choice([1.0, 1.0, 0.97, 0.93, 0.9, 0.85, 0.8, 0.7, 0.6]); c['oomok'] = 1
+        c['fill7frac'] = rng.choice([2.0, 3.0, 6.0]); c['fill8frac'] = rng.choice([2.0, 3.0, 6.0])
+        c['ops'] = rng.choice(['F', 'F,S0', 'F,R0', 'F,D,F']); c['nps'] = rng.choice(['4', '8', '3', '16', '2,8'])
+        c['qnp'] = 1      # the buffer is sized by a query for ONE thread
+        if rng.random() < 0.5: c['pmode'] = rng.choice([1, 2]); c['pert'] = rng.randrange(1, 1 << 30)
+        items.append(({'variant': 'plain', 'prec': rng.choice(PRECS), 'per_process': True, 'timeout_scale': 0.5}, c))
     items += sched_items(ctx)
     return items
 
@@ -840,6 +852,17 @@ def gen_c06(ctx):
             out.append(({'variant': 'asan', 'prec': prec, 'per_process': True}, c))
         else:
             out.append(({'variant': 'plain', 'prec': prec, 'per_process': c['kind'] in ('emptycol', 'emptyrow', 'hall', 'hallblock')}, c))
+    # the singular matrix arrives as a RE-factorization (same pattern, new values with one exactly zero column), with and without re-use
+    # of the previous row pivots, after histories of ordinary calls: the zero-pivot test sits next to the pivot-reuse logic
+    NH = 400 if ctx.quick else 5000
+    for i in range(NH):
+        prec = rng.choice(PRECS)
+        c = hist_base(rng, ctx.quick, nmax=44)
+        c['n'] = max(c['n'], 5); c['u'] = rng.choice([1.0, 1.0, 0.5]); c['kind'] = 'refact-zerocol'
+        c['ops'] = rng.choice(['F,Y1', 'F,Y0', 'F,R1,Y1', 'F,S0,Y1,F,S0', 'F,Y1,F,R1,Y1', 'F,R0,Y0,F,Y1'])
+        c['nps'] = ','.join(str(rng.choice([1, 2, 4, 8])) for _ in range(3))
+        if rng.random() < 0.5: c['pmode'] = rng.choice([1, 2]); c['pert'] = rng.randrange(1, 1 << 30)
+        out.append(({'variant': 'asan' if i % 3 == 0 else 'plain', 'prec': prec}, c))
     return out
 
 def judge_kind(ctx, r, out):
@@ -854,13 +877,13 @@ def cov_c06(ctx, recs):
         if 0 < res.get('info', 0) <= res.get('n', 0): rep[r['case'].get('kind')] += 1
     return {'singular_kinds': dict(k), 'reported_through_info': dict(rep)}
 
-PROPS['C06'] = dict(gen=gen_c06, relevant=('C06|', 'C07|info-range', 'C01|info-range', 'C01|info-nonzero'), counters=('nrhs', 'first_deficient'), batch=20, coverage_extra=cov_c06,
+PROPS['C06'] = dict(gen=gen_c06, relevant=('C06|', 'C07|info-range', 'C01|info-range', 'C01|info-nonzero', 'C08|info-nonzero', 'C08|factors-malformed', 'C08|reconstruction'), counters=('nrhs', 'first_deficient', 'sing_refact'), batch=20, coverage_extra=cov_c06,
                     nontrivial=lambda r: 0 < (r.get('result') or {}).get('info', 0) <= (r.get('result') or {}).get('n', 0) or r['case'].get('kind') == 'tiny-nonsingular',
                     rule='both drivers (ASan build one case per process + plain build) on singular inputs: stored-zero column/row, structurally empty column/row, isolated Hall violators (h columns meeting only h-1 rows), '
                     'isolated rank-1 +-1 blocks (exact cancellation whatever the pivot order), non-isolated Hall violators (outcome free, only safety asserted); distinct = sha1(case); non-trivial = 0<info<=n returned; '
                     'oracle: returns normally, 0<info<=n, B unchanged (simple) / X sentinel intact and B scaled only as reported (expert), perm_c bijection, L/U walkable and destroyable, '
                     'info = first structurally deficient prefix of A*Pc (augmenting-path matching) for the families where exact zeros are guaranteed in floating point',
-                    floors={},
+                    floors={'sing_refact': 100},
                     assumptions=['for structurally rank-deficient patterns whose violator columns receive fill, floating-point elimination need not produce exact zeros: there only crash/corruption freedom is asserted'])
 
 # ---- C11 (driver part; the computational routines are exercised by cmd=equil) ----
